@@ -271,6 +271,16 @@ func NewEpochFromConfig(
 					return nil, fmt.Errorf("root CID mismatch in gsfa index: expected %s, got %s", lastRootCid, gotRootCid)
 				}
 			}
+
+			// The pubkey-to-offset-and-size index inside the gsfa directory carries its own epoch and root CID;
+			// it must belong to the same epoch and CAR as the manifest and the other indexes.
+			offsetsMeta := gsfaIndex.OffsetsMeta()
+			if ep.Epoch() != offsetsMeta.Epoch {
+				return nil, fmt.Errorf("epoch mismatch in gsfa pubkey-to-offset-and-size index: expected %d, got %d", ep.Epoch(), offsetsMeta.Epoch)
+			}
+			if !lastRootCid.Equals(offsetsMeta.RootCid) {
+				return nil, fmt.Errorf("root CID mismatch in gsfa pubkey-to-offset-and-size index: expected %s, got %s", lastRootCid, offsetsMeta.RootCid)
+			}
 		}
 	}
 
